@@ -1475,3 +1475,24 @@ mut("c17-flags-decode-truncates", "C17", "src/protocol/fields.rs",
     """        Self::from_bits_retain(v)""",
     """        Self::from_bits_truncate(v)""",
     "R17.10/", "undefined flag bits are dropped while decoding")
+
+# ---- sweep x ------------------------------------------------------------------------------------------------------------------------------
+mut("x-c03-map-or-total-one-short", "C03", "src/parser/request.rs",
+    """            .map_or((payload, true), |t| (t, false));""",
+    """            .map_or((payload, true), |t| (t - 1, false));""",
+    "R3.11/SkipState::drive", "the record's total length is one short, and underflows for an empty record (inside the closure of the Option::map_or form)", base="x1-r2")
+mut("x-c18-check-sequence-is-le", "C18", "src/parser/stream.rs",
+    """        if cmp_input_streams(role, new, self.stream).is_lt() {""",
+    """        if cmp_input_streams(role, new, self.stream).is_le() {""",
+    "R18.2/", "re-selecting the current stream is rejected (helper + Ordering predicate form)", base="x2-r6")
+mut("x-c18-check-sequence-is-gt", "C18", "src/parser/stream.rs",
+    """        if cmp_input_streams(role, new, self.stream).is_lt() {""",
+    """        if cmp_input_streams(role, new, self.stream).is_gt() {""",
+    "R18.2/", "later streams are rejected and earlier ones accepted (helper + Ordering predicate form)", base="x2-r6")
+mut("x-c19-match-form-fast-path-for-mixed", "C19", "src/cgi/mod.rs",
+    """            (VarNameInner::Static(lhs), VarNameInner::Static(rhs)) => lhs == rhs,
+            _ => self.as_var() == other.as_var(),""",
+    """            (VarNameInner::Static(lhs), VarNameInner::Static(rhs)) => lhs == rhs,
+            (VarNameInner::Static(_), _) | (_, VarNameInner::Static(_)) => false,
+            _ => self.as_var() == other.as_var(),""",
+    "R19.2/owned-eq", "an interned name never equals a custom spelling of itself (match form)", base="x6-r7")
